@@ -22,7 +22,7 @@ def op_insert_stamped():
 def op_insert_multiple(bad=False):
     return st.tuples(
         st.just("insert_multiple"), st.lists(gen.points(), min_size=0 if not bad else 1, max_size=6), st.integers(0, 3), st.sampled_from(["inorder", "inorder", "asis"]),
-        st.sampled_from(["db", "db", "db_meas", "handle"]), st.integers(0, 4) if bad else st.none(), st.sampled_from(gen.MEAS),
+        st.sampled_from(["db", "db", "db_meas", "handle"]), st.sampled_from([0, 1, 2, 3, 4, 0, 1, 2, 3, 4, 100, 101, 102, 103]) if bad else st.none(), st.sampled_from(gen.MEAS),
     ).map(list)
 
 
@@ -128,7 +128,7 @@ def op_bad_update():
 
 
 def op_bad_insert():
-    return st.tuples(st.just("bad_insert"), st.sampled_from(["dict", "none", "str", "tuple", "overflow_int", "overflow_int"])).map(list)
+    return st.tuples(st.just("bad_insert"), st.sampled_from(["dict", "none", "str", "tuple", "overflow_int", "overflow_int", "surrogate", "surrogate"])).map(list)
 
 
 def op_bad_read():
